@@ -41,6 +41,11 @@ func (pBlock *ProphetBlock) BlockTypeName() string {
 }
 
 func (pBlock ProphetBlock) CheckValid() error {
+	for peerID := range pBlock {
+		if err := peerID.CheckValid(); err != nil {
+			return err
+		}
+	}
 	return nil
 }
 
